@@ -84,6 +84,17 @@ def run(db, chk) -> None:
     chk.ob("C09.R3-reset-before-accumulate", "the edge set is emptied (or rebuilt as a whole) on every computation, after the new path is known and before edges are added", ok, where,
            found={"resets": [s.lineno for s in resets], "accumulations": [ast.unparse(a)[:60] for a in accum]}, accepted="self.critical_path_edges_set = set()  before the accumulation loop",
            why="without the reset a recomputation after re-weighting reports the union of the old and the new path's edges")
+    # ---------------------------------------------------------------- R5 the path is recomputed on every call
+    guards = []
+    cur = m.parent.get(id(lp[0]))
+    while cur is not None and cur is not f:
+        if isinstance(cur, (ast.If, ast.IfExp, ast.While, ast.For)):
+            guards.append(ast.unparse(cur.test if hasattr(cur, "test") else cur.iter)[:80])
+        cur = m.parent.get(id(cur))
+    early = [r for r in walk_no_nested(f) if isinstance(r, ast.Return) and r.lineno < lp[0].lineno]
+    chk.ob("C09.R5-always-recomputed", "every call recomputes the longest path on the current graph: no condition, memo or early return in front of the computation (validation failure raises)", not guards and not early, where,
+           found={"conditions": guards, "early_returns": [r.lineno for r in early]}, accepted="unconditional nx.dag_longest_path after validation",
+           why="a memo keyed on counts / total weight keeps the stale path after a what-if re-weighting that moves weight between edges")
     # ---------------------------------------------------------------- R4 validation dominates (shared with C08)
     c08._validation(db, _Prefixed(chk, "C09.R4-validation"), m)
     chk.floor("C09.R1-key-agreement", 5)
